@@ -44,10 +44,10 @@ func init() {
 	checks["C12"] = &CheckDef{
 		Pkgs:        []string{"./control"},
 		Splice:      true,
-		Harness:     []string{"control:Verif_C12_single_prefix", "control:Verif_C12_dedup"},
+		Harness:     []string{"control:Verif_C12_single_prefix", "control:Verif_C12_dedup", "control:Verif_C12_ring_index"},
 		MaxIter:     2000,
 		Level:       "other",
-		LevelText:   "For one prefix of any family with all 128 address bits and all 128 probe bits symbolic, the solver shows that the real userspace trie (NewTrieFromPrefixes/HasPrefix/Prefix2bin128) and the real kernel LPM key (cidrToBpfLpmKey, spliced from bpf_utils.go) both decide exactly CIDR containment on the IPv4-mapped form. This is a statement about every address and probe inside the bound, which tests can only sample; it is bounded (lengths listed per tier) and therefore not a proof.",
+		LevelText:   "For one prefix of any family with all 128 address bits and all 128 probe bits symbolic, the solver shows that the real userspace trie (NewTrieFromPrefixes/HasPrefix/Prefix2bin128) and the real kernel LPM key (cidrToBpfLpmKey, spliced from bpf_utils.go) both decide exactly CIDR containment on the IPv4-mapped form. This is a statement about every address and probe inside the bound, which tests can only sample; it is bounded (lengths listed per tier) and therefore not a proof. Also: two rules over look-alike prefix sets (same numeric length and 16-byte form in different families, the same addresses in both forms, equal sets, the default routes) through the real builder with de-duplication, for an arbitrary destination; and the ring-slot rewrite of set indices for the kernel (rewriteKernRulesWithRingLpmIndex) for every rule kind with symbolic set index, ring start and set count.",
 		LevelNote:   "Trusted: go/ssa, the executor, z3, the bitwise containment spec in the harness, the kernel LPM trie's longest-prefix rule (modelled as 'first PrefixLen bits of the key bytes equal'), a warm byte-buffer pool. Quick tier: boundary prefix lengths only; thorough: all lengths 0..128 / 0..32.",
 		Technique:   techniqueText,
 		Explanation: "Bounded symbolic execution of the real trie / LPM-key code from go/ssa against a bitwise containment specification.",
@@ -58,10 +58,10 @@ func init() {
 	}
 	checks["C18"] = &CheckDef{
 		Pkgs:        []string{"./control"},
-		Harness:     []string{"control:Verif_C18_table", "control:Verif_C18_strings", "control:Verif_C18_rerouted"},
+		Harness:     []string{"control:Verif_C18_table", "control:Verif_C18_strings", "control:Verif_C18_rerouted", "control:Verif_C18_probe"},
 		MaxIter:     400,
 		Level:       "other",
-		LevelText:   "The real ControlPlane.ChooseDialTarget is executed symbolically for every combination of dial mode, outbound kind, presence of a sniffed name and what the DNS controller / real-domain cache know (symbolic booleans), and for every sniffed string up to the bound over the alphabet {1 . : [ ] a} with symbolic bytes through the real isIPLikeDomain, netip.ParseAddr, net.SplitHostPort and net.JoinHostPort; the solver discharges the decision-table and well-formedness obligations on every path. Also the real chooseProxyDialer with Route and the group's dialer selection replaced by arbitrary results: for a flow routed again in userspace the target dialled is the one ChooseDialTarget prescribes for the outbound finally used (3 kernel outbounds x 2 re-routed outbounds x 4 dial modes x name present or not).",
+		LevelText:   "The real ControlPlane.ChooseDialTarget is executed symbolically for every combination of dial mode, outbound kind, presence of a sniffed name and what the DNS controller / real-domain cache know (symbolic booleans), and for every sniffed string up to the bound over the alphabet {1 . : [ ] a} with symbolic bytes through the real isIPLikeDomain, netip.ParseAddr, net.SplitHostPort and net.JoinHostPort; the solver discharges the decision-table and well-formedness obligations on every path. Also the real chooseProxyDialer with Route and the group's dialer selection replaced by arbitrary results: for a flow routed again in userspace the target dialled is the one ChooseDialTarget prescribes for the outbound finally used (3 kernel outbounds x 2 re-routed outbounds x 4 dial modes x name present or not). And the real verification probe (probeAndUpdateRealDomain) with both address-family lookups ending symbolically in an address, an empty answer or an error: the name is verified exactly when an address was found.",
 		LevelNote:   "Trusted: go/ssa, executor, z3. Environment replaced by symbolic stubs: DnsController.HasDnsKnowledge/cacheKey, lookupRealDomainCache, triggerRealDomainProbe (counted). Destination fixed to 10.1.2.3 with ports {1,443,65535}; strings up to 4 (quick) / 6 (thorough) bytes. Whether domain mode re-routes is not constrained (the property does not state it).",
 		Technique:   techniqueText,
 		Explanation: "Bounded symbolic execution of ChooseDialTarget and the string normalisation it performs.",
